@@ -207,3 +207,101 @@ class DiffMain:
         "implies(called('exit') == 1 and called('report') == 0, same(call_event('exit')[1], 1) and called('compare') == 0)",
         "implies(called('report') == 1, called('compare') == 1 and called('exit') == 1 and same(call_event('exit')[1], 1 if call_event('report')[1] else 0))",
     ]}}
+
+
+# ---------------------------------------------------------------------------------------------------
+# yaml-get: one printed line per matched node; status 0 only when the query matched
+# ---------------------------------------------------------------------------------------------------
+YG = "yamlpath.commands.yaml_get."
+
+
+@contract(YG + "processcli", props=["C16"])
+class GetProcessCli:
+    assumed = True
+    notes = "argparse: returns the parsed arguments (or exits)"
+    raises = ["SystemExit"]
+    ensures = ["hasattr(result, 'query') and hasattr(result, 'pathsep') and hasattr(result, 'yaml_file') and hasattr(result, 'eyaml') "
+               "and hasattr(result, 'publickey') and hasattr(result, 'privatekey')",
+               "isinstance(result.query, str)",
+               "result.pathsep is PathSeparators.AUTO or result.pathsep is PathSeparators.DOT or result.pathsep is PathSeparators.FSLASH"]
+    opts = {"returns": "Any"}
+
+
+@contract(YG + "validateargs", props=["C16"])
+class GetValidateArgs:
+    assumed = True
+    notes = "argument validation (exits with status 1 on a documented misuse)"
+    raises = ["SystemExit"]
+
+
+@contract("yamlpath.common.parsers.Parsers.get_yaml_data", props=["C16"])
+class GetYamlData:
+    assumed = True
+    notes = "the single-document loader (ruamel + I/O): (document, loaded?)"
+    raises = []
+    opts = {"returns": "Tuple[Any, bool]", "event": "('load',)"}
+
+
+@contract("yamlpath.eyaml.eyamlprocessor.EYAMLProcessor.__init__", props=["C16"])
+class EyamlProcessorInit:
+    assumed = True
+    notes = "EYAMLProcessor construction"
+    raises = []
+
+
+@contract("yamlpath.eyaml.eyamlprocessor.EYAMLProcessor.get_eyaml_values", props=["C16"])
+class GetEyamlValues:
+    assumed = True
+    notes = ("the query (properties C01 / C15) with EYAML values decrypted: yields the matched nodes; with mustexist=True it raises "
+             "YAMLPathException when nothing matches")
+    raises = ["YAMLPathException", "EYAMLCommandException"]
+    opts = {"yields": "Any", "event": "('query', yaml_path)"}
+
+
+@contract("extmethod:date", props=["C16"])
+class DateOf:
+    assumed = True
+    notes = "datetime.date(): the date part of a timestamp"
+    raises = []
+    opts = {"returns": "Any"}
+
+
+@contract("extmethod:isoformat", props=["C16"])
+class IsoFormat:
+    assumed = True
+    notes = "date / datetime .isoformat()"
+    raises = []
+    opts = {"returns": "str"}
+
+
+@contract("yamlpath.common.parsers.Parsers.jsonify_yaml_data", props=["C16"])
+class JsonifyForGet:
+    assumed = True
+    notes = "conversion of a loaded container to JSON-compatible data (no I/O)"
+    raises = ["RecursionError"]
+    opts = {"returns": "Any"}
+
+
+@contract("yamlpath.common.nodes.Nodes.get_timestamp_with_tzinfo", props=["C16"])
+class TimestampTz:
+    assumed = True
+    notes = "re-attaches the time zone ruamel split off"
+    raises = []
+    opts = {"returns": "Any"}
+
+
+@contract(YG + "main", props=["C16"])
+class GetMain:
+    """yaml-get: a document that does not load ends with status 1 before any query; a query that raises (nothing matched,
+    bad path: YAMLPathException -> 1; EYAML failure -> 2) prints nothing; otherwise every gathered node is printed with
+    exactly one print call, in order, and main returns (status 0)."""
+    raises = ["SystemExit", "OSError"]        # (OSError: stdout closed under print)
+    loops = {
+        "for node in processor.get_eyaml_values(yaml_path, mustexist=True)": {"invariant": ["len(discovered_nodes) == iters"],
+                                                                             "body_ensures": ["called('print') == 0"]},
+        "for node in discovered_nodes": {"body_ensures": ["called('print') == 1"]},
+    }
+    ensures = ["called('load') == 1 and called('query') == 1 and called('exit') == 0", "len(discovered_nodes) == yield_count('query')",
+               "doc_loaded is True"]
+    opts = {"exc_ensures": {"SystemExit": ["implies(called('query') == 0, called('print') == 0)",
+                                           "implies(called('query') == 1, doc_loaded is True)"]}}
